@@ -63,7 +63,9 @@ def n_cases(tier):
 def gen_case(rng, tier, idx):
     act = rng.choice(["R", "W", "RW", "RW1C", "RW1S", "RW", "RW1C", "RW1S", "RES"])
     r = rng.random()
-    if r < 0.6:
+    if r < 0.08:
+        shape = ("u", rng.choice([31, 32, 33, 63, 64, 65, 96, 128, 129]))
+    elif r < 0.6:
         shape = ("u", rng.choice([0, 1, 1, 2, 2, 3, 3, 4, 5, 6, 7, 8]))
     elif r < 0.8:
         shape = ("s", rng.randint(1, 8))
